@@ -576,7 +576,7 @@ package codec
 //
 //@ func NewReader
 //@   allocates
-//@   ensures [C02,C05] validR(result) && fresh(result) && result.buf.src == data && result.buf.i == 0
+//@   ensures validR(result) && fresh(result) && fresh(result.buf) && result.buf.src == data && result.buf.i == 0
 //@   safety [C05]
 //
 //@ func (*Reader).Reset
@@ -584,7 +584,7 @@ package codec
 //@   witness i = b.buf.i
 //@   requires b != nil && b.buf != nil
 //@   modifies b.buf.i, b.buf.src, b.ref
-//@   ensures [C02,C05] validR(b) && b.buf.src == data && b.buf.i == 0
+//@   ensures validR(b) && b.buf.src == data && b.buf.i == 0
 //@   safety [C05]
 //
 //@ func (*Buffer).ToBytes
